@@ -23,6 +23,9 @@ CHECKS = {
  "C02": dict(level="model_checking", technique="bounded exhaustive enumeration of rule sets; per rule set an explicit-state BFS over the product (real _LexerStateMachine with emitted tables) x (reference derivative automaton) covering inputs of every length, plus all byte strings up to a bound through the real simplelexer driver",
    text="For every enumerated rule set inside the property's precondition the product of the real generated state machine and the reference is searched completely (finite graph): every PushRune result equals the documented longest-viable-run / earliest-rule semantics up to the first error, for all inputs over representatives of every class atom. Byte-level bookkeeping (offsets, multi-byte and invalid UTF-8) is covered by all short byte strings through the real driver.",
    note="Trusted: internal/lexref (Brzozowski derivatives over class atoms), internal/ivl. Bounds: rule-set size; driver strings up to L symbols.", ref="DESIGN.md section C02"),
+ "C08": dict(level="model_checking", technique="exhaustive enumeration of prefix/body/terminator/cardinality/companion shapes; per spec explicit-state BFS over the product (real state machine) x (reference with first-complete-match semantics) plus all strings up to a bound through the real driver",
+   text="Every specification of the enumerated non-greedy shapes is searched completely in product with the reference: a rule containing *? or +? ends at its first complete match, greedy rules keep the longest viable run. Where the two clauses conflict (non-greedy rule complete while a greedy rule can extend) the explorer follows the real machine and only requires that what is emitted matches the run exactly; those decisions are counted.",
+   note="Trusted: internal/lexref. The ambiguity rule above is the check's reading of a situation the statement leaves open.", ref="DESIGN.md section C08"),
 }
 
 NA_REASON = "check not built yet (work in progress; see DESIGN.md for the plan)"
